@@ -75,8 +75,23 @@ def mk(kind, n, pos, unit=None):
     a, b = BASE[pos]
     if unit is not None:
         u = unit
-    elif kind in ("q", "a", "az", "c", "lq", "lqm", "tq", "tqa", "tlq", "tlqm", "lqm3", "lzq", "lbq", "lqb"):
+    elif kind in ("q", "a", "az", "c", "lq", "lqm", "tq", "tqa", "tlq", "tlqm", "lqm3", "lzq", "lbq", "lqb", "e0", "e02", "e20", "a1", "q0a"):
         u = _G["units"][n]
+    # size / shape classes (Ufunc.tla: ShapeKinds)
+    if kind == "e0":
+        return ua(np.array([], dtype=float), u)
+    if kind == "e02":
+        return ua(np.zeros((0, 2)), u)
+    if kind == "e20":
+        return ua(np.zeros((2, 0)), u)
+    if kind == "a1":
+        return ua(np.array([a]), u)
+    if kind == "q0a":
+        return ua(np.array(a), u)
+    if kind == "be":
+        return np.array([], dtype=float)
+    if kind == "bel":
+        return []
     # sequences mixing bare numbers and quantities, tuples, a three-element mixed list (Ufunc.tla: HetList, ListQ)
     if kind == "lzq":
         return [0.0, uq(b, u)]
@@ -210,15 +225,43 @@ IOPER = {
     "divide": operator.itruediv,
     "floor_divide": operator.ifloordiv,
 }
-BSHAPE = {"s": (), "v": (2,), "c": (2, 1), "m": (2, 2), "w": (3,)}
+BSHAPE = {"s": (), "v": (2,), "c": (2, 1), "m": (2, 2), "w": (3,), "o": (1,), "e": (0,), "e02": (0, 2), "e20": (2, 0)}
 
 
 def _shape(kind):
-    return "s" if kind in ("q", "bs", "z", "ts", "ds", "nz", "ns", "is", "tq") else "c" if kind == "c" else "w" if kind == "lqm3" else "v"
+    if kind in ("q", "bs", "z", "ts", "ds", "nz", "ns", "is", "tq", "q0a"):
+        return "s"
+    return {"c": "c", "lqm3": "w", "a1": "o", "e0": "e", "be": "e", "bel": "e", "e02": "e02", "e20": "e20"}.get(kind, "v")
 
 
 def _bc(a, b):
-    return b if a == "s" else a if b == "s" else a if a == b else "m"
+    """Broadcast shape class (same table as Ufunc.tla Bc)."""
+    if a == "s":
+        return b
+    if b == "s" or a == b:
+        return a
+    if a == "o":
+        return b
+    if b == "o":
+        return a
+    if {a, b} == {"e02", "v"}:
+        return "e02"
+    if {a, b} == {"e20", "c"}:
+        return "e20"
+    if {a, b} == {"v", "c"}:
+        return "m"
+    return "x"
+
+
+def _mask(case, alt=False):
+    """A boolean mask / index array of the broadcast shape of the two operands (2 entries for the usual kinds)."""
+    np = _G["np"]
+    sh = BSHAPE.get(_bc(_shape(case["k0"]), _shape(case["k1"])), (2,))
+    if sh in ((), (2,), (3,)):
+        sh = (2,)
+    n = int(np.prod(sh))
+    base = [False, True] if alt else [True, False]
+    return np.array([base[i % 2] for i in range(n)], dtype=bool).reshape(sh)
 
 
 def call_ufunc(case, x0, x1):
@@ -252,12 +295,12 @@ def call_arrfn(case, x0, x1):
     if op == "append":
         return np.append(x0, x1)
     if op == "where":
-        return np.where(np.array([True, False]), x0, x1)
+        return np.where(_mask(case), x0, x1)
     if op == "choose":
-        return np.choose(np.array([0, 1]), [x0, x1])
+        return np.choose(_mask(case, alt=True).astype(int), [x0, x1])
     if op == "select":
         default = _G["uq"](7.0, x0.units)
-        return np.select([np.array([True, False]), np.array([False, True])], [x0, x1], default=default)
+        return np.select([_mask(case), _mask(case, alt=True)], [x0, x1], default=default)
     if op in ("intersect1d", "union1d", "setdiff1d", "setxor1d", "isin"):
         return getattr(np, op)(x0, x1)
     if op == "interp":
@@ -267,7 +310,7 @@ def call_arrfn(case, x0, x1):
     if op == "einsum":
         return np.einsum("i,i->i", x0, x1)
     if op == "insert":
-        return np.insert(x0, 1, x1)
+        return np.insert(x0, 0, x1)
     if op == "searchsorted":
         return np.searchsorted(x0, x1)
     if op == "clip":
